@@ -51,6 +51,7 @@ def parseOp (fs : List String) : Option Op :=
   | ["renew", id, incr, now] => do pure (.renew (← id.toNat?) (← incr.toInt?) (← now.toInt?))
   | ["tokrenew", id, incr, now] => do pure (.tokRenew (← id.toNat?) (← incr.toInt?) (← now.toInt?))
   | ["revoke", id, sync, now] => do pure (.revoke (← id.toNat?) (← b? sync) (← now.toInt?))
+  | ["revokeloadfault", id, now] => do pure (.revokeLoadFault (← id.toNat?) (← now.toInt?))
   | ["tokrevoke", id, now] => do pure (.tokRevoke (← id.toNat?) (← now.toInt?))
   | ["age", id, secs, now] => do pure (.age (← id.toNat?) (← secs.toInt?) (← now.toInt?))
   | ["setfail", mode, n] => do
